@@ -66,7 +66,7 @@ func cliCases(r *rand.Rand, tier string) []string {
 	)
 	n := 6
 	if tier == "thorough" {
-		n = 40
+		n = 150
 	}
 	for i := 0; i < n; i++ {
 		k := 1 + r.Intn(4)
